@@ -402,16 +402,26 @@ impl Transport for LocalTransport {
                 source: e,
             })?;
 
+            // Every way of replacing this large existing file goes through a working file that is
+            // renamed over it, so an interrupted run leaves the old or the new content, never a prefix.
+            let temp_dest = crate::temp_file::temp_path_for(&dest);
+            let temp_guard = TempFileGuard::new(&temp_dest);
+
             if is_file_sparse(&source_meta) {
                 tracing::info!(
                     "Source file is sparse (allocated size < logical size), using sparse-aware copy"
                 );
 
                 // Use SEEK_HOLE/SEEK_DATA to preserve sparseness
-                let bytes_written = copy_sparse_file(&source, &dest).map_err(|e| SyncError::CopyError {
+                let bytes_written = copy_sparse_file(&source, &temp_dest).map_err(|e| SyncError::CopyError {
                     path: source.clone(),
                     source: e,
                 })?;
+                fs::rename(&temp_dest, &dest).map_err(|e| SyncError::CopyError {
+                    path: dest.clone(),
+                    source: e,
+                })?;
+                temp_guard.defuse();
 
                 tracing::debug!(
                     "Sparse file copy complete: {} bytes logical size",
@@ -456,10 +466,15 @@ impl Transport for LocalTransport {
                         );
 
                         // Fallback to full copy (not sparse, so fs::copy is fine)
-                        let bytes_written = fs::copy(&source, &dest).map_err(|e| SyncError::CopyError {
+                        let bytes_written = fs::copy(&source, &temp_dest).map_err(|e| SyncError::CopyError {
                             path: source.clone(),
                             source: e,
                         })?;
+                        fs::rename(&temp_dest, &dest).map_err(|e| SyncError::CopyError {
+                            path: dest.clone(),
+                            source: e,
+                        })?;
+                        temp_guard.defuse();
 
                         // Preserve modification time (as copy_file does)
                         if let Ok(mtime) = source_meta.modified() {
@@ -520,8 +535,6 @@ impl Transport for LocalTransport {
 
             // Strategy 1: COW clone + selective writes (fast on APFS/BTRFS/XFS)
             // Strategy 2: In-place delta (for ext4, hard links, cross-filesystem)
-            let temp_dest = crate::temp_file::temp_path_for(&dest);
-            let temp_guard = TempFileGuard::new(&temp_dest);
 
             let (bytes_written, literal_bytes, changed_blocks) = if use_cow_strategy {
                 // COW Strategy: Clone file (instant), then selectively overwrite changed blocks
